@@ -136,8 +136,8 @@ def match_known(known, prop, contract, ob, values):
 
 def check_property(prop, tier='quick', seed=0, only=None, verbose=False):
     t0 = time.time()
-    cfg = {'tier': tier, 'seed': seed, 'branch_timeout_ms': 5000, 'ob_timeout_ms': 20000 if tier == 'quick' else 60000,
-           'cvc5_timeout_s': 30 if tier == 'quick' else 120, 'max_paths': 4000 if tier == 'quick' else 20000}
+    cfg = {'tier': tier, 'seed': seed, 'branch_timeout_ms': 5000, 'ob_timeout_ms': 60000 if tier == 'quick' else 180000,
+           'cvc5_timeout_s': 60 if tier == 'quick' else 180, 'max_paths': 4000 if tier == 'quick' else 20000}
     contracts = api.load(prop)
     if only:
         contracts = [c for c in contracts if c.name in only]
